@@ -938,7 +938,8 @@ def run_case(case, rec):
 
 from props import layouts as _layouts  # noqa: E402
 
-_LAYOUT_SITES = ['tof.chopper_cascade.propagate_times', 'tof.chopper_cascade.wavelength_to_inverse_velocity', 'conversion.tof.time_at_sample_from_tof']
+_LAYOUT_SITES = ['tof.chopper_cascade.propagate_times', 'tof.chopper_cascade.wavelength_to_inverse_velocity', 'conversion.tof.time_at_sample_from_tof',
+                 'conversion.beamline.scattering_angles_with_gravity/orthogonal', 'conversion.beamline.scattering_angles_with_gravity/generic', 'conversion.beamline.scattering_angle_in_yz_plane']
 _cases_main, _run_case_main = cases, run_case
 RULE = RULE + ' Layout cases: every combination of operand layouts (0d / 1-d a / 1-d b / 2-d ab / 2-d stored ba) per kernel x unit-dtype variant, each followed by an in-place update of all operands and a second call.'
 REQUIRED_CLASSES = [*REQUIRED_CLASSES, 'layout_ok', 'reuse_after_inplace_update_ok', 'layout_transposed_operand', 'repeat_call_identical']
